@@ -147,8 +147,11 @@ def gen_enumerated(seed: int, tier: str, j: int):
 
 
 def gen(seed: int, tier: str, idx=None):
+    if tier == "thorough" and idx is not None and idx < ENUM_TOTAL:
+        # thorough starts by executing EVERY history of the bounded space once (shape variant 0), then samples
+        return gen_enumerated(seed, tier, idx)
     if idx is not None and idx % 3 == 0:
-        return gen_enumerated(seed, tier, idx // 3)
+        return gen_enumerated(seed, tier, ENUM_TOTAL + idx // 3 if tier == "thorough" else idx // 3)
     rng0 = substream(seed, "swarm")
     cfg = {"property": PROPERTY, "aspects": ["grid", "names"], "profile": "grid"}
     kinds = ["s", "b", "i", "f", "dt", "td"]
@@ -307,7 +310,7 @@ def setup(sim: Sim) -> None:
 def evidence_extra(agg) -> dict:
     n = agg["stats"].get("probes", {}).get("enumerated_short_history_runs", 0)
     return {"bounded_exhaustive_stratum": {"histories_executed": n, "histories_in_space": ENUM_TOTAL, "shape_variants": 4,
-                                           "note": "run index 3j executes history j mod %d on shape variant (j div %d) mod 4; a batch of >= %d runs covers every history on one shape" % (ENUM_TOTAL, ENUM_TOTAL, 3 * ENUM_TOTAL)}}
+                                           "note": "quick: run index 3j executes history j mod %d on shape variant (j div %d) mod 4; thorough: run indices 0..%d execute every history once on shape variant 0, later indices continue with the other variants" % (ENUM_TOTAL, ENUM_TOTAL, ENUM_TOTAL - 1)}}
 
 
 def nontrivial(result: dict) -> bool:
